@@ -394,8 +394,96 @@ def run(ctx):
                             label=n)
         explore.explore(ctx, CallScenario, {'config': 'four'}, max_depth=9,
                         label='four (depth 9)', max_states=400000)
+    ctx.map(_task_resend, [0])
     ctx.bounds = {'configs': list(ctx.parts)}
 
 
+def run_resend(first, second, timeout, chain):
+    """a call message object sent again (callRemoteMessage) from inside the
+    callback / errback that receives the answer to its previous use: the
+    second use is a call of its own and completes with its own answer"""
+    from txdbus import message as M
+    viol = []
+    cw = fakes.ClientWorld()
+    try:
+        cw.sent()
+        conn = cw.conn
+        mcall = M.MethodCallMessage('/o', 'Poll', interface='a.b',
+                                    destination='c.d')
+        results = [[] for _ in range(chain + 1)]
+
+        def use(k):
+            d = conn.callRemoteMessage(mcall, timeout=timeout)
+
+            def done(r, k=k):
+                results[k].append(
+                    ('ok', r.body) if hasattr(r, 'body') and
+                    not hasattr(r, 'errName') and
+                    not isinstance(r, Exception) and
+                    not hasattr(r, 'value') else
+                    ('err', getattr(getattr(r, 'value', r), 'errName',
+                                    type(getattr(r, 'value', r)).__name__)))
+                if k < chain:
+                    use(k + 1)
+            d.addBoth(done)
+        use(0)
+        serial = cw.sent()[0]['serial']
+        kinds = [first] + [second] * chain
+        for k, kind in enumerate(kinds):
+            if kind == 'return':
+                raw = R.encode_message(R.METHOD_RETURN, 700 + k,
+                                       {'reply_serial': serial}, 'u', [k])
+            else:
+                raw = R.encode_message(R.ERROR, 700 + k,
+                                       {'reply_serial': serial,
+                                        'error_name': 'a.b.E%d' % k})
+            conn.dataReceived(raw)
+            cw.sent()
+        cw.clock.advance(1000)
+        want = [[('ok', [k])] if kind == 'return' else
+                [('err', 'a.b.E%d' % k)] for k, kind in enumerate(kinds)]
+        if results != want:
+            viol.append(('resend/%s-%s/%s' % (first, second,
+                                              'deadline' if timeout else
+                                              'no-deadline'),
+                         'a call message sent again from the handler of its '
+                         'previous answer (%d times; answers %r; timeout %r): '
+                         'the uses completed with %r, expected %r'
+                         % (chain, kinds, timeout, results, want)))
+        left = [c for c in cw.clock.getDelayedCalls() if c.active()]
+        if left:
+            viol.append(('resend/timer-left',
+                         '%d timer(s) left after every use was answered'
+                         % len(left)))
+    except Exception as e:
+        viol.append(('resend/raises-%s' % type(e).__name__,
+                     'first %s, then %s, timeout %r: raised %r'
+                     % (first, second, timeout, e)))
+    finally:
+        cw.close()
+    return viol
+
+
+def _task_resend(_):
+    res = core.Result()
+    for first in ('return', 'error'):
+        for second in ('return', 'error'):
+            for timeout in (None, 5):
+                for chain in (1, 2):
+                    res.count('states')
+                    res.count('transitions', chain + 1)
+                    res.count('evaluations')
+                    res.count('nontrivial')
+                    for t, w in run_resend(first, second, timeout, chain):
+                        res.violation('%s/%s' % (PROP, t), w,
+                                      {'part': 'resend', 'args':
+                                       [first, second, timeout, chain]},
+                                      size=chain)
+    return res
+
+
 def replay(data):
+    if data.get('part') == 'resend':
+        return [('%s/%s' % (PROP, t), w)
+                for t, w in run_resend(*data['args'])]
     return explore.replay_violation(data)
